@@ -123,6 +123,9 @@ def build_request(case):
     obj.header.application_id = case["app_id"]
     obj.header.hop_by_hop_identifier = case.get("hbh", 0x2001)
     obj.header.end_to_end_identifier = case.get("hbh", 0x2001)
+    if case.get("t_flag"):
+        # "potentially retransmitted" on a request the node has never seen: to be treated like any new request
+        obj.header.is_retransmit = True
     return k, obj.as_bytes(), dmap
 
 
@@ -206,6 +209,8 @@ def evaluate(case) -> Result:
             if pending_dwr is not None and not sender.node_closed:
                 res.classes.append("sender:awaiting-dwa")
             n0 = len(sender.refresh())
+        if case.get("t_flag"):
+            res.classes.append("t-flag:new-request")
         w.feed(sender, req_bytes, case.get("cuts"))
         if pending_dwr is not None:
             w.feed_msg(sender, {"k": "DWA", "host": case["sender_host"], "hbh": pending_dwr.h["hbh"], "e2e": pending_dwr.h["e2e"]})
@@ -348,6 +353,15 @@ def shard_main(shard, nshards, tier, scale):
             hyp.run_given(full_spec_strategy(k), obody, 1, derive_seed(PID, "ob", k.__name__, layout, sender), rec=rec)
 
     for k in classes[shard::nshards]:
+        def tbody(spec, k=k):
+            case = {"cls": k.__name__, "spec": spec, "removed": [], "realm": "example", "app_id": LAYOUTS[0]["apps"][0][0],
+                    "sender_host": "peer1.example", "layout": 0, "t_flag": True}
+            res = evaluate(case)
+            res.classes.append("t-flag-grid")
+            record(rec, case, res)
+        hyp.run_given(full_spec_strategy(k), tbody, 1, derive_seed(PID, "tf", k.__name__), rec=rec)
+
+    for k in classes[shard::nshards]:
         def wbody(spec, k=k):
             case = {"cls": k.__name__, "spec": spec, "removed": [], "realm": "example", "app_id": LAYOUTS[0]["apps"][0][0],
                     "sender_host": "peer1.example", "layout": 0, "noise": ["await-DWA"]}
@@ -372,7 +386,7 @@ def shard_main(shard, nshards, tier, scale):
                 "layout": layout, "handler": draw(st.sampled_from(["answer", "answer", "raise"])),
                 "app_kind": draw(st.sampled_from(["basic", "threading"])),
                 "noise": draw(st.lists(st.sampled_from(["DWR-before", "DWR-after", "DWA-after", "await-DWA"]), max_size=2, unique=True)),
-                "sender_dir": draw(st.sampled_from(["in", "in", "out"])),
+                "sender_dir": draw(st.sampled_from(["in", "in", "out"])), "t_flag": draw(st.sampled_from([False, False, True])),
                 "sender_spelling": draw(st.sampled_from([None, "UPPER", "Title"])),
                 "seed": draw(st.integers(0, 3))}
 
@@ -389,7 +403,7 @@ def run(tier, scale=1.0):
     rec = Recorder(PID)
     for d in hyp.pool_run(shard_main, (tier, scale)):
         rec.merge(d)
-    required = {"sender:awaiting-dwa": 1, "sender:outbound-respelled": 1, "layout:mixed-case-realm": 1, "expect:deliver": 1, "expect:5005": 1, "expect:3003": 1, "expect:3007": 1, "handler:raise": 1,
+    required = {"t-flag:new-request": 1, "sender:awaiting-dwa": 1, "sender:outbound-respelled": 1, "layout:mixed-case-realm": 1, "expect:deliver": 1, "expect:5005": 1, "expect:3003": 1, "expect:3007": 1, "handler:raise": 1,
                 "layout:same-id-two-peers": 1, "layout:three-apps": 1, "app:threading": 1, "removed:2": 1}
     return finish(rec, tier=tier, level="exploration", rule=RULE, assumptions=ASSUME, t0=t0,
                   required_classes=required,
